@@ -1327,7 +1327,7 @@ def populate_scenario(tables, lt, lc, pt, pc, pv=10):
 
 def file_lengths(trace):
     """crc -> length of the complete cache file, from the wbyte events of a recorded run"""
-    return {e['crc']: e['of'] for e in trace['ev'] if e['e'] == 'wbyte'}
+    return {e.get('icrc', e['crc']): e['of'] for e in trace['ev'] if e['e'] == 'wbyte'}
 
 
 def sweep_scenarios(tables, lt, lc, pt, pc, lens, mode, target, chunk, pv=10, stride=1):
